@@ -278,6 +278,15 @@ def rule_del(P):
     return r
 
 
+def rule_changelist(P):
+    """the changelist (evmap.c / epoll-changelist): what the backend is finally asked equals the last request for the fd; C05's table (engine/props/C05.py: rule_changelist) is reused, since a
+    change that is dropped or cancelled there makes the backend report readiness nobody asked for, or none where it was asked - this property."""
+    from . import C05
+    r = C05.rule_changelist(P)
+    r.id = "C04-changelist"
+    return r
+
+
 def run(ctx, config):
     P = ctx.prog(UNITS, config)
-    return [rule_active(P), rule_maps(P), rule_del(P)]
+    return [rule_active(P), rule_maps(P), rule_del(P), rule_changelist(P)]
